@@ -83,4 +83,42 @@ static inline _Bool spr_rec(struct vec_vec_inf_rational D)
     }
   return 1;
 }
+static inline struct smt_lin sp_lin_neg(struct smt_lin l)
+{
+  for (U_t i = 0; i < LIN_MAX; i++) if (i < l.vars.n) l.vars.e[i].second.num = (I_t)-l.vars.e[i].second.num;
+  l.known_term.num = (I_t)-l.known_term.num;
+  return l;
+}
+/* equates(l, 0): true iff 0 lies in [lo, hi] of l, with lo/hi the scaled variable-level range (compared as inf_rationals:
+ * lo <= 0 means rat < 0, or rat == 0 and inf <= 0) */
+static inline _Bool spr_le0(struct smt_inf_rational a) { return a.rat.num < 0 || (a.rat.num == 0 && a.rat.den != 0 && a.inf.num <= 0); }
+static inline _Bool spr_ge0(struct smt_inf_rational a) { return a.rat.num > 0 || (a.rat.num == 0 && a.rat.den != 0 && a.inf.num >= 0); }
+/* the result r is what some [lo, hi] satisfying the bounds statement gives: checked through the two scaled ends directly */
+static inline _Bool spr_equates_ok(struct vec_vec_inf_rational D, struct smt_lin l, _Bool r)
+{
+  struct spr_form f = spr_form_of(l);
+  if (f.shape == 3) return 1;
+  if (f.shape == 0) return r == (l.known_term.num == 0);
+  struct smt_inf_rational rlo = f.shape == 1 ? spr_neg(D.e[f.x].e[0]) : spr_neg(D.e[f.x].e[f.y]);
+  struct smt_inf_rational rhi = f.shape == 1 ? D.e[0].e[f.x] : D.e[f.y].e[f.x];
+  /* sign of  b * c + k  relative to 0, for the end b of the range that becomes the lower / upper bound */
+  struct smt_inf_rational lo_src = f.c.num > 0 ? rlo : rhi, hi_src = f.c.num > 0 ? rhi : rlo;
+  /* lo <= 0 ?  lo = lo_src * c + k */
+  _Bool lo_le0, hi_ge0;
+  if (lo_src.rat.den == 0) lo_le0 = ((lo_src.rat.num > 0) == (f.c.num > 0)) ? 0 : 1;
+  else
+  {
+    WIDE_t n = (WIDE_t)lo_src.rat.num * (WIDE_t)f.c.num * (WIDE_t)l.known_term.den + (WIDE_t)l.known_term.num * (WIDE_t)lo_src.rat.den * (WIDE_t)f.c.den;   /* sign of the rational part (denominators > 0) */
+    WIDE_t e = (WIDE_t)lo_src.inf.num * (WIDE_t)f.c.num;
+    lo_le0 = n < 0 || (n == 0 && e <= 0);
+  }
+  if (hi_src.rat.den == 0) hi_ge0 = ((hi_src.rat.num > 0) == (f.c.num > 0)) ? 1 : 0;
+  else
+  {
+    WIDE_t n = (WIDE_t)hi_src.rat.num * (WIDE_t)f.c.num * (WIDE_t)l.known_term.den + (WIDE_t)l.known_term.num * (WIDE_t)hi_src.rat.den * (WIDE_t)f.c.den;
+    WIDE_t e = (WIDE_t)hi_src.inf.num * (WIDE_t)f.c.num;
+    hi_ge0 = n > 0 || (n == 0 && e >= 0);
+  }
+  return r == (lo_le0 && hi_ge0);
+}
 #endif
